@@ -88,11 +88,12 @@ Definition okp (e : relem) : Prop := let '(o, n, l, cl) := e in o = 0 \/ cl = []
 Definition cleanp (e : relem) : Prop :=
   let '(o, n, l, cl) := e in clean n = true /\ clean_len l = true /\ Forall (fun x => clean_len x = true) cl.
 
-Lemma cut_name : forall n z, clean n = true -> (z = [] \/ exists w, z = ":" :: w) -> cut_at ":" (n ++ z) = n.
+(* ----- the printed form of a clean name: the name itself, or the name in single quotes ----- *)
+
+Lemma double_quotes_id : forall n, ~ In "'" n -> double_quotes n = n.
 Proof.
-  intros n z Hn [->|[w ->]].
-  - rewrite app_nil_r. apply cut_at_notin. apply clean_no; [exact Hn|cbn [In]; intuition].
-  - apply cut_at_app. apply clean_no; [exact Hn|cbn [In]; intuition].
+  induction n as [|c n IH]; intros H; [reflexivity|]. cbn [double_quotes].
+  rewrite eqb_neq by (intros E; apply H; left; exact E). f_equal. apply IH. intros K. apply H. right. exact K.
 Qed.
 
 Lemma unquote_clean : forall n, clean n = true -> unquote n = n.
@@ -102,13 +103,73 @@ Proof.
   apply remove_char_notin. apply clean_no; [exact Hn|cbn [In]; intuition].
 Qed.
 
+Definition pname_ok (pn n : str) : Prop := pn = n \/ pn = "'" :: n ++ ["'"].
+
+Lemma print_name_clean : forall n, clean n = true -> pname_ok (print_name n) n.
+Proof.
+  intros n Hn. unfold print_name.
+  destruct (clean_hd_last n Hn) as [Hh _].
+  assert (Eh : Ascii.eqb (hd " " n) "'" = false).
+  { apply eqb_neq. intros E. apply clean_char_facts in Hh. destruct Hh as [Hh _]. apply Hh. rewrite E.
+    unfold special. cbn [In]. intuition. }
+  rewrite Eh. cbn [andb].
+  destruct (existsb must_quote n).
+  - right. rewrite double_quotes_id; [reflexivity|]. apply clean_no; [exact Hn|cbn [In]; intuition].
+  - left. apply replace_char_notin. apply clean_no; [exact Hn|cbn [In]; intuition].
+Qed.
+
+Lemma pname_in : forall pn n c, pname_ok pn n -> In c pn -> c = "'" \/ In c n.
+Proof.
+  intros pn n c [->| ->] H; [right; exact H|].
+  destruct H as [<-|H]; [left; reflexivity|]. apply in_app_or in H. destruct H as [H|[<-|[]]]; auto.
+Qed.
+
+Lemma pname_no : forall pn n c, clean n = true -> pname_ok pn n ->
+  In c ["("; ")"; ","; ":"; ";"; " "; "/"; "010"] -> ~ In c pn.
+Proof.
+  intros pn n c Hn Hp Hc K. destruct (pname_in pn n c Hp K) as [->|K'].
+  - cbn [In] in Hc. repeat (destruct Hc as [Hc|Hc]; [discriminate Hc|]). exact Hc.
+  - revert K'. apply clean_no; [exact Hn|]. cbn [In] in *. intuition.
+Qed.
+
+Lemma pname_nonempty : forall pn n, clean n = true -> pname_ok pn n -> pn <> [].
+Proof. intros pn n Hn [->| ->]; [apply clean_Forall in Hn; tauto|discriminate]. Qed.
+
+Lemma pname_unquote : forall pn n, clean n = true -> pname_ok pn n -> unquote pn = n.
+Proof.
+  intros pn n Hn [->| ->]; [apply unquote_clean; exact Hn|].
+  unfold unquote.
+  assert (E : replace_char " " "_" ("'" :: n ++ ["'"]) = "'" :: n ++ ["'"]).
+  { apply replace_char_notin. intros [K|K]; [discriminate K|]. apply in_app_or in K. destruct K as [K|[K|[]]]; [|discriminate K].
+    revert K. apply clean_no; [exact Hn|cbn [In]; intuition]. }
+  rewrite E. change ("'" :: n ++ ["'"]) with (["'"] ++ n ++ ["'"]).
+  rewrite !remove_char_app. rewrite (remove_char_notin "'" n) by (apply clean_no; [exact Hn|cbn [In]; intuition]).
+  cbn. rewrite app_nil_r. reflexivity.
+Qed.
+
+Lemma pname_strip_ws : forall pn n, clean n = true -> pname_ok pn n -> strip_ws pn = pn.
+Proof.
+  intros pn n Hn [->| ->]; [apply strip_ws_clean; exact Hn|].
+  unfold strip_ws. apply strip_by_id; [discriminate|reflexivity|].
+  change ("'" :: n ++ ["'"]) with (("'" :: n) ++ ["'"]). rewrite last_last. reflexivity.
+Qed.
+
+Lemma cut_name : forall pn z, ~ In ":" pn -> (z = [] \/ exists w, z = ":" :: w) -> cut_at ":" (pn ++ z) = pn.
+Proof.
+  intros pn z Hn [->|[w ->]].
+  - rewrite app_nil_r. apply cut_at_notin. exact Hn.
+  - apply cut_at_app. exact Hn.
+Qed.
+
 Lemma elementise_render : forall e, cleanp e -> okp e -> elementise (render e) = forget e.
 Proof.
   intros [[[o n] l] cl] [Hn [Hl Hcl]] Hok. unfold okp in Hok. unfold render, forget.
   fold (closings cl).
-  assert (Nopen : ~ In "(" (n ++ plen l ++ closings cl)).
+  assert (Hp := print_name_clean n Hn). set (pn := print_name n) in *.
+  assert (PN : forall c, In c ["("; ")"; ","; ":"; ";"; " "; "/"; "010"] -> ~ In c pn) by (intros c; apply (pname_no pn n c Hn Hp)).
+  assert (Nopen : ~ In "(" (pn ++ plen l ++ closings cl)).
   { intros K. apply in_app_or in K. destruct K as [K|K].
-    - revert K. apply clean_no; [exact Hn|cbn [In]; intuition].
+    - revert K. apply PN. cbn [In]; intuition.
     - apply in_app_or in K. destruct K as [K|K].
       + revert K. apply plen_no; [exact Hl|cbn [In]; intuition].
       + revert K. apply closings_no_open. exact Hcl. }
@@ -119,43 +180,45 @@ Proof.
     destruct cl as [|x cl].
     + (* a plain tip *)
       cbn [closings flat_map length]. rewrite app_nil_r.
-      assert (Nclose : ~ In ")" (n ++ plen l)).
+      assert (Nclose : ~ In ")" (pn ++ plen l)).
       { intros K. apply in_app_or in K. destruct K as [K|K].
-        - revert K. apply clean_no; [exact Hn|cbn [In]; intuition].
+        - revert K. apply PN. cbn [In]; intuition.
         - revert K. apply plen_no; [exact Hl|cbn [In]; intuition]. }
       rewrite (proj2 (has_char_false ")" _) Nclose).
-      rewrite (cut_name n (plen l) Hn); [rewrite unquote_clean by exact Hn; reflexivity|].
+      rewrite (cut_name pn (plen l)); [rewrite (pname_unquote pn n Hn Hp); reflexivity|apply PN; cbn [In]; intuition|].
       destruct l as [x|]; [right; eexists; reflexivity|left; reflexivity].
     + (* closes clades *)
-      assert (Hc : has_char ")" (n ++ plen l ++ closings (x :: cl)) = true).
+      assert (Hc : has_char ")" (pn ++ plen l ++ closings (x :: cl)) = true).
       { apply has_char_In. apply in_or_app. right. apply in_or_app. right. left. reflexivity. }
       rewrite Hc.
-      rewrite !remove_char_app.
-      rewrite (remove_char_notin ")" n) by (apply clean_no; [exact Hn|cbn [In]; intuition]).
-      rewrite (remove_char_notin ")" (plen l)) by (apply plen_no; [exact Hl|cbn [In]; intuition]).
-      rewrite remove_closings by exact Hcl.
-      rewrite (cut_name n _ Hn) by apply plens_head.
-      rewrite strip_ws_clean by exact Hn. rewrite unquote_clean by exact Hn.
+      assert (Ec : cut_at ")" (pn ++ plen l ++ closings (x :: cl)) = pn ++ plen l).
+      { rewrite closings_cons. rewrite app_assoc. cbn [app]. apply cut_at_app.
+        intros K. apply in_app_or in K. destruct K as [K|K].
+        - revert K. apply PN. cbn [In]; intuition.
+        - revert K. apply plen_no; [exact Hl|cbn [In]; intuition]. }
+      rewrite Ec.
+      rewrite (cut_name pn (plen l)) by (try (destruct l as [y|]; [right; eexists; reflexivity|left; reflexivity]); apply PN; cbn [In]; intuition).
+      rewrite (pname_strip_ws pn n Hn Hp). rewrite (pname_unquote pn n Hn Hp).
       rewrite !count_char_app.
-      rewrite (count_char_notin ")" n) by (apply clean_no; [exact Hn|cbn [In]; intuition]).
+      rewrite (count_char_notin ")" pn) by (apply PN; cbn [In]; intuition).
       rewrite (count_char_notin ")" (plen l)) by (apply plen_no; [exact Hl|cbn [In]; intuition]).
       rewrite count_closings by exact Hcl. reflexivity.
   - (* opening parentheses: no closing ones *)
     destruct Hok as [Hok|Hok]; [discriminate|]. subst cl.
     cbn [closings flat_map length] in *. rewrite app_nil_r in *.
     unfold elementise.
-    assert (Ho : has_char "(" (repeat "(" (S o) ++ n ++ plen l) = true).
+    assert (Ho : has_char "(" (repeat "(" (S o) ++ pn ++ plen l) = true).
     { apply has_char_In. left. reflexivity. }
     rewrite Ho.
     rewrite count_char_app, count_char_repeat, (count_char_notin "(" _ Nopen), Nat.add_0_r.
     rewrite strip_by_repeat by reflexivity.
     rewrite strip_by_all.
-    + rewrite (cut_name n (plen l) Hn) by (destruct l as [x|]; [right; eexists; reflexivity|left; reflexivity]).
-      rewrite (replace_char_notin "(") by (apply clean_no; [exact Hn|cbn [In]; intuition]).
-      rewrite (replace_char_notin ")") by (apply clean_no; [exact Hn|cbn [In]; intuition]).
-      rewrite unquote_clean by exact Hn.
+    + rewrite (cut_name pn (plen l)) by (try (destruct l as [x|]; [right; eexists; reflexivity|left; reflexivity]); apply PN; cbn [In]; intuition).
+      rewrite (replace_char_notin "(") by (apply PN; cbn [In]; intuition).
+      rewrite (replace_char_notin ")") by (apply PN; cbn [In]; intuition).
+      rewrite (pname_unquote pn n Hn Hp).
       reflexivity.
-    + apply clean_Forall in Hn. destruct Hn as [Hne _]. destruct n; [congruence|discriminate].
+    + intros E. apply app_eq_nil in E. destruct E as [E _]. revert E. apply (pname_nonempty pn n Hn Hp).
     + intros c Hc. apply eqb_neq. intros E. subst c. apply Nopen. exact Hc.
 Qed.
 
@@ -212,7 +275,7 @@ Proof.
   apply in_app_or in K. destruct K as [K|K].
   - apply repeat_spec in K. discriminate K.
   - apply in_app_or in K. destruct K as [K|K].
-    + revert K. apply clean_no; [exact Hn|cbn [In]; intuition].
+    + revert K. apply (pname_no _ n "," Hn (print_name_clean n Hn)). cbn [In]; intuition.
     + apply in_app_or in K. destruct K as [K|K].
       * revert K. apply plen_no; [exact Hl|cbn [In]; intuition].
       * fold (closings cl) in K. induction cl as [|x cl IHc]; [destruct K|].
